@@ -44,6 +44,19 @@ def run(tier: str, seed: int) -> int:
     res = linear.run_model(run_, tier, work, maxt=0)
     tables, _ = linear.load(res)
     tlc.cleanup(res)
+    # fine grids and high orders of the difficulty interface: the sign structure of the symbol (MC_Linear.DissipativeOK: even orders with
+    # dissipative sign are <= 0 at every mode) must survive the conversion gamma_j -> alpha_j = gamma_j / (N^j 2^(j-1) D) for every N
+    for N in (96, 220, 256, 1500, 4096):
+        for order, diff in ((2, 1.5), (4, -1.5), (6, 0.5), (8, -0.5)):
+            run_.case(("difficulty-fine", N, order))
+            st = ex.stepper.generic.DifficultyLinearStepperSimple(1, N, difficulty=diff, order=order)
+            m = np.asarray(st.step_fourier(jnp.ones((1, N // 2 + 1), dtype=complex)))[0]
+            k = np.arange(N // 2 + 1)
+            want = np.exp(-abs(diff) * (2 * np.pi * k) ** order / (float(N) ** order * 2 ** (order - 1)))
+            if not np.all(np.isfinite(m)) or float(np.max(np.abs(m))) > 1 + 1e-12 or float(np.max(np.abs(m - want))) > 1e-9:
+                run_.violation({"kind": "modulus", "cls": "DifficultyLinearStepperSimple", "D": 1, "what": "fine grid / high order: a dissipative difficulty amplifies or is wrong"},
+                               {"N": N, "order": order, "max_modulus": float(np.max(np.abs(m))) if np.all(np.isfinite(m)) else None,
+                                "max_err": float(np.max(np.abs(m - want))) if np.all(np.isfinite(m)) else None})
     traces, meta = [], []
     nsamp = 0
     for (cls, mix, D, N), table in sorted(tables.items()):
